@@ -27,9 +27,17 @@ package loggers
 //@   unreachable
 //@ func (*file).Raw
 //@   assigns *f.bufferCh
+// Printing (C01 S6, C07): one message is written to standard output by exactly
+// one fmt.Print / fmt.Println, inside the critical section of the logger's
+// mutex, and nothing is added to a raw message.
 //@ func (*stdout).log
-//@   assigns s.mutex, *s.pauseCh, *s.resumeCh
+//@   assigns s.mutex, *s.pauseCh, *s.resumeCh, g_stdout
+//@   at-call fmt.Print [under-mutex] s.mutex.locked
+//@   ensures [printed-once] g_stdout == old(g_stdout) + message + ite(nl, "\n", "")
+//@   ensures [mutex-released] !s.mutex.locked
 //@ func (*stdout).Raw
-//@   assigns s.mutex, *s.pauseCh, *s.resumeCh
+//@   assigns s.mutex, *s.pauseCh, *s.resumeCh, g_stdout
+//@   ensures [raw-as-is] g_stdout == old(g_stdout) + message
 //@ func (*stdout).RawWithColors
-//@   assigns s.mutex, *s.pauseCh, *s.resumeCh
+//@   assigns s.mutex, *s.pauseCh, *s.resumeCh, g_stdout
+//@   ensures [raw-as-is] g_stdout == old(g_stdout) + coloredMessage
